@@ -1525,7 +1525,7 @@ static uint64_t bufr_value2bits( BufrDescriptor *bd )
 
 */
                if ((bd->encoding.reference != 0)||(bd->encoding.scale != 0))
-                  ival = bufr_cvt_fval_to_i32( bd->descriptor, &(bd->encoding), (float)ival );
+                  ival = bufr_cvt_dval_to_i64( bd->descriptor, &(bd->encoding), (double)ival );
                }
             else
                {
@@ -1720,7 +1720,8 @@ static void bufr_put_desc_value ( BUFR_Message *bufr, BufrDescriptor *bd )
                i32val = bufr_value_get_int32( bd->value );
                if ((bd->encoding.reference != 0)||(bd->encoding.scale != 0))
                   {
-                  ui64val = bufr_cvt_fval_to_i32( bd->descriptor, &(bd->encoding), (float)i32val );
+/* a float only holds 24 bits exactly: go through double, an int32 fits */
+                  ui64val = bufr_cvt_dval_to_i64( bd->descriptor, &(bd->encoding), (double)i32val );
                   }
                else if (i32val < 0)
                   {
